@@ -59,7 +59,8 @@ type tstate struct {
 	frames   []int // canonical record per active interpreted frame (innermost last)
 	cmd      chan cmd
 	slowSeen int // canonical record returned by the slow path in this incarnation (-1: none yet)
-	litBase  bool // go func(m int){ node(m) }(c): the outermost frame is the literal
+	litBase  bool // go func(m int){ node(m) }(c) / go rnode(c): the outermost frame is the literal / rnode
+	recov    bool // started by go rnode(c): a panic in its frames is recovered by the goroutine's own function
 }
 
 type world struct {
@@ -72,6 +73,7 @@ type world struct {
 	clos      [nSlots]func(int)
 	closRec   [nSlots]int
 	recIdx    map[uintptr]int
+	recFirst  map[int]int // canonical record -> first goroutine (thread index) seen using it
 	recOwner  []uintptr
 	idIdx     map[uintptr]int
 	hist      []string // human readable history (failure input)
@@ -86,16 +88,22 @@ var noWaitGlobal bool
 
 // interpreted program: every frame runs the same command loop, reading (op, arg) from the driver.
 // op 0 return; 1 call node; 2 go node(arg); 3 slot[arg] = closure made by mk (a frame of this goroutine);
-// 4 call slot[arg]; 5 go func(m int){ node(m) }(arg); anything else: no-op
+// 4 call slot[arg]; 5 go func(m int){ node(m) }(arg); 6 runtime.Goexit() (the goroutine ends inside its interpreted frames:
+// only deferred calls run); 7 panic(arg) (recovered by rnode, the function of the goroutine, when there is one);
+// 8 go rnode(arg); anything else: no-op
 func loopSrc(v string) string {
-	return `for { op, a := next(` + v + `); if op == 0 { return } else if op == 1 { node(` + v + `) } else if op == 2 { go node(a) } else if op == 3 { put(a, mkv(` + v + `)) } else if op == 4 { get(a)(` + v + `) } else if op == 5 { go func(m int) { node(m) }(a) } }`
+	return `for { op, a := next(` + v + `); if op == 0 { return } else if op == 1 { node(` + v + `) } else if op == 2 { go node(a) } else if op == 3 { put(a, mkv(` + v + `)) } else if op == 4 { get(a)(` + v + `) } else if op == 5 { go func(m int) { node(m) }(a) } else if op == 6 { runtime.Goexit() } else if op == 7 { panic(a) } else if op == 8 { go rnode(a) } }`
 }
 
 var progSrc = []string{
+	`import "runtime"`,
 	`var mkv func(int) func(int)`,
+	`var nodev func(int)`,
+	`func rnode(me int) { defer func() { recover() }(); nodev(me) }`,
 	`func node(me int) { enter(me); ` + loopSrc("me") + ` }`,
 	`func mk(me int) func(int) { enter(me); return func(m int) { enter(m); ` + loopSrc("m") + ` } }`,
 	`mkv = mk`,
+	`nodev = node`,
 }
 
 func newInterp() *fast.Interp {
@@ -212,6 +220,14 @@ func (w *world) onEnter(a ackMsg, viaOwner uintptr) {
 			w.fail("registry lookup returned a different record for the same live goroutine", r, t.slowSeen)
 		}
 		t.slowSeen = r
+		// the record a go statement creates for its goroutine is unregistered when that goroutine ends, however it ends
+		if f, ok := w.recFirst[r]; ok && f != a.me && w.thr[f].kind == "go" {
+			w.fail("registry lookup handed the record created for a go-statement goroutine (now gone) to another goroutine",
+				fmt.Sprint("record ", r, " of goroutine ", f, " given to goroutine ", a.me), "a record of its own")
+		}
+	}
+	if _, ok := w.recFirst[r]; !ok {
+		w.recFirst[r] = a.me
 	}
 	t.frames = append(t.frames, r)
 }
@@ -254,6 +270,12 @@ func (w *world) send(t int, c cmd) { w.thr[t].cmd <- c }
 func (w *world) foreignLoop(me int) {
 	t := w.thr[me]
 	w.ack <- ackMsg{kind: "fstart", me: me, goid: gls.GoID()}
+	normal := false
+	defer func() { // runtime.Goexit() inside an interpreted frame: only deferred calls run
+		if !normal {
+			w.ack <- ackMsg{kind: "fexit", me: me, goid: gls.GoID()}
+		}
+	}()
 	for {
 		c := <-t.cmd
 		switch c.op {
@@ -262,6 +284,7 @@ func (w *world) foreignLoop(me int) {
 		case 4:
 			w.clos[c.a](me)
 		case 0:
+			normal = true
 			w.ack <- ackMsg{kind: "fexit", me: me, goid: gls.GoID()}
 			return
 		}
@@ -275,8 +298,9 @@ func (w *world) settle() {
 	time.Sleep(20 * time.Microsecond)
 }
 
-// waitUnregistered polls until no registry entry has the key goid (the deferred glsDel of a go-statement child)
-func (w *world) waitUnregistered(goid uintptr) {
+// waitUnregistered polls until no registry entry has the key goid (the deferred glsDel of a go-statement child);
+// how = the way the goroutine ended
+func (w *world) waitUnregistered(goid uintptr, how string) {
 	deadline := time.Now().Add(1500 * time.Millisecond)
 	for {
 		found := false
@@ -290,7 +314,7 @@ func (w *world) waitUnregistered(goid uintptr) {
 		}
 		if w.noWait || time.Now().After(deadline) {
 			if !w.noWait {
-				w.fail("the registry entry of a go-statement goroutine is still present 1.5 s after its function returned (deferred glsDel)", fmt.Sprintf("key %#x", goid), "entry removed")
+				w.fail("the registry entry of a go-statement goroutine is still present 1.5 s after "+how+" (deferred glsDel)", fmt.Sprintf("key %#x", goid), "entry removed")
 			}
 			noWaitGlobal = true
 			w.noWait = true
@@ -304,7 +328,7 @@ func (w *world) waitUnregistered(goid uintptr) {
 
 
 type action struct {
-	kind string // call ret spawn spawnlit mkclos callclos fspawn fexit
+	kind string // call ret spawn spawnlit spawnrec mkclos callclos fspawn fexit goexit panic
 	t, a int
 }
 
@@ -350,9 +374,16 @@ func (w *world) enabled(maxThreads int) []action {
 			acts = append(acts, action{"ret", i, 0}, action{"ret", i, 0})
 		}
 		if canSpawn {
-			acts = append(acts, action{"spawn", i, 0}, action{"spawnlit", i, 0})
+			acts = append(acts, action{"spawn", i, 0}, action{"spawnlit", i, 0}, action{"spawnrec", i, 0})
 		}
 		acts = append(acts, action{"mkclos", i, 0})
+		// the goroutine ends inside its interpreted frames (not the creator of the interpreter: Eval would not return)
+		if t.kind != "main" {
+			acts = append(acts, action{"goexit", i, 0})
+		}
+		if t.kind == "go" && t.recov {
+			acts = append(acts, action{"panic", i, 0})
+		}
 	}
 	return acts
 }
@@ -428,18 +459,41 @@ func (w *world) perform(ac action, rng *vh.Rng) {
 		}
 		if len(th.frames) == 0 && th.kind == "go" {
 			// the goroutine's function returned: deferred glsDel, then the goroutine is gone
-			w.waitUnregistered(th.goid)
+			w.waitUnregistered(th.goid, "its function returned")
 			th.live = false
 			w.settle()
 			hev = append(hev, fmt.Sprintf("HExit %d", t))
 		}
 		w.emit(hev, w.top(t))
-	case "spawn", "spawnlit":
+	case "goexit", "panic":
+		th := w.thr[t]
+		w.hist = append(w.hist, fmt.Sprintf("%s(%d)", ac.kind, t))
+		op, how := 6, "it called runtime.Goexit() inside its interpreted frames"
+		if ac.kind == "panic" {
+			op, how = 7, "a panic in its interpreted frames was recovered by the function of the goroutine, which then returned"
+		}
+		w.send(t, cmd{op, 0})
+		th.frames = th.frames[:0]
+		if th.kind == "foreign" {
+			if a, _ := w.waitAck("fexit", t); a.goid != th.goid {
+				w.fail("gls.GoID() changed within one goroutine", a.goid, th.goid)
+			}
+		} else {
+			w.waitUnregistered(th.goid, how)
+		}
+		th.live = false
+		w.settle()
+		w.emit([]string{fmt.Sprintf("HGoexit %d", t)}, nil)
+	case "spawn", "spawnlit", "spawnrec":
 		c := w.newThread("go")
 		w.hist = append(w.hist, fmt.Sprintf("%s(%d->%d)", ac.kind, t, c))
 		op := 2
 		if ac.kind == "spawnlit" {
 			op = 5
+		}
+		if ac.kind == "spawnrec" {
+			op = 8
+			w.thr[c].recov = true
 		}
 		w.send(t, cmd{op, c})
 		a, ok := w.waitAck("enter", c)
@@ -449,7 +503,13 @@ func (w *world) perform(ac action, rng *vh.Rng) {
 		}
 		cid := w.id(a.goid)
 		th := w.thr[c]
-		if ac.kind == "spawn" || len(th.frames) == 0 {
+		if ac.kind == "spawnrec" && len(th.frames) > 0 {
+			// go rnode(c): rnode's frame and the frame of node called by it both find the child's record in the registry
+			r := th.frames[0]
+			th.frames = []int{r, r}
+			th.litBase = true
+			w.emit([]string{fmt.Sprintf("HSpawnGo %d %d %d", t, c, cid), fmt.Sprintf("HCall %d 0", c), fmt.Sprintf("HCall %d 0", c)}, w.top(c))
+		} else if ac.kind == "spawn" || len(th.frames) == 0 {
 			w.emit([]string{fmt.Sprintf("HSpawnGo %d %d %d", t, c, cid), fmt.Sprintf("HCall %d 0", c)}, w.top(c))
 		} else {
 			// go func(m int){ node(m) }(c): the literal's frame uses env2.Run (the child's new record, fast path),
@@ -466,7 +526,7 @@ func (w *world) perform(ac action, rng *vh.Rng) {
 func runCase(rep *vh.Report, idx int, rng *vh.Rng, nsteps, maxThreads int) (string, []string, bool) {
 	old := debug.SetGCPercent(-1) // addresses are used as identities within a case: keep them unique
 	defer func() { debug.SetGCPercent(old); runtime.GC() }()
-	w := &world{noWait: noWaitGlobal, rep: rep, ack: make(chan ackMsg, 16), recIdx: map[uintptr]int{}, idIdx: map[uintptr]int{}, caseIdx: idx}
+	w := &world{noWait: noWaitGlobal, rep: rep, ack: make(chan ackMsg, 16), recIdx: map[uintptr]int{}, recFirst: map[int]int{}, idIdx: map[uintptr]int{}, caseIdx: idx}
 	w.ir = newInterp()
 	w.declare()
 	main := w.newThread("main")
@@ -827,6 +887,64 @@ func partD(rep *vh.Report) {
 	}
 }
 
+// ---------------------------------------------------------------- part E: endings of go-statement goroutines
+// A go statement registers a record for its goroutine; however that goroutine ends (its function returns, runtime.Goexit()
+// at any call depth or inside a nested closure, a panic recovered by the goroutine's own function) the registry must be
+// left without an entry for its identity: a later goroutine that is given the same identity must not find it.
+func partE(rep *vh.Report) {
+	ir := newInterp()
+	reached := make(chan uintptr, 4)
+	ir.DeclFunc("reached", func() { reached <- gls.GoID() })
+	for _, src := range []string{`import "runtime"`,
+		`func ender(how, n int) { if n > 0 { ender(how, n-1); return }; reached(); if how == 1 { runtime.Goexit() } else if how == 2 { panic("x") } else if how == 3 { func() { runtime.Goexit() }() } }`,
+		`func guarded(how, n int) { defer func() { recover() }(); ender(how, n) }`} {
+		ir.Eval(src)
+	}
+	hows := []string{"return", "Goexit", "panic-recovered-in-goroutine", "Goexit-in-nested-closure"}
+	for how := range hows {
+		for _, depth := range []int{0, 1, 5} {
+			for _, lit := range []bool{false, true} {
+				stmt := fmt.Sprintf("go guarded(%d, %d)", how, depth)
+				if lit {
+					stmt = fmt.Sprintf("go func(h, n int) { guarded(h, n) }(%d, %d)", how, depth)
+				}
+				key := "ending:" + hows[how] + ":" + stmt
+				if p := vh.Catch(func() { ir.Eval(stmt) }); p != nil {
+					rep.Fail(vh.Failure{Key: key, What: "go statement failed", Input: stmt, Got: fmt.Sprint(p)})
+					continue
+				}
+				var goid uintptr
+				select {
+				case goid = <-reached:
+				case <-time.After(20 * time.Second):
+					rep.Fail(vh.Failure{Key: key, What: "the goroutine started by the go statement never ran", Input: stmt})
+					return
+				}
+				deadline := time.Now().Add(1500 * time.Millisecond)
+				for {
+					found := false
+					for _, e := range ir.VerifRegistry() {
+						found = found || e.Goid == goid
+					}
+					if !found {
+						break
+					}
+					if time.Now().After(deadline) {
+						rep.Fail(vh.Failure{Key: key, What: "the registry entry of a go-statement goroutine is still present 1.5 s after the goroutine ended (" + hows[how] + "): the next goroutine with this identity finds the dead goroutine's record",
+							Input: map[string]interface{}{"program": []string{`import "runtime"`, "func ender(how, n int) {...; if how == 1 { runtime.Goexit() } ...}", "func guarded(how, n int) { defer func() { recover() }(); ender(how, n) }"}, "statement": stmt},
+							Got: fmt.Sprintf("entry with key %#x present", goid), Want: "entry removed"})
+						return // one report is enough; every further case would wait 1.5 s
+					}
+					runtime.Gosched()
+					time.Sleep(20 * time.Microsecond)
+				}
+				rep.Count(key, how > 0)
+				rep.Dist("partE:" + hows[how])
+			}
+		}
+	}
+}
+
 // ---------------------------------------------------------------- main
 func raceChild(a *vh.Args, mode, logp string) (error, []string) {
 	old, _ := filepath.Glob(logp + ".*")
@@ -955,8 +1073,10 @@ func main() {
 	}
 	rng := vh.NewRng(a.Seed)
 	rep := vh.NewReport(a, "part A: rounds of 2..64 simultaneously live goroutines checking gls.GoID() constant (after Gosched, channel receive, Sleep, deep recursion, LockOSThread) and pairwise distinct; "+
-		"part B: PRNG-dictated schedules (8..40 events: call, return, go statement with named function or with function literal, make closure, call closure made by another goroutine, foreign goroutine start/exit) over <= 6 live goroutines, "+
+		"part B: PRNG-dictated schedules (8..40 events: call, return, go statement with named function / function literal / a function that recovers panics, make closure, call closure made by another goroutine, foreign goroutine start/exit, "+
+		"runtime.Goexit() inside the interpreted frames of a go-statement or foreign goroutine, panic recovered by the goroutine's own function) over <= 6 live goroutines, "+
 		"registry snapshot after every event compared with the model, ownership/sharing/stability oracles on every frame allocation; a schedule is non-trivial when >= 2 goroutines besides the creator ran interpreted frames; distinct by SHA-256 of the event list; "+
+		"part E: go statements (named function / literal) whose goroutine ends by return, runtime.Goexit() at call depth 0/1/5 or in a nested closure, or a recovered panic: the registry must lose the entry each time; "+
 		"part C: stress rounds (GOMAXPROCS 1,2,4,8; yields injected in odd rounds) of goroutines from go statements and compiled code (incl. sort.Slice callbacks) with the ownership probe at every interpreted call; "+
 		"avoided input classes (replayed in separate processes of the -race build, reported under their own keys): first concurrent execution of one call expression by several goroutines (call expressions are warmed on the creator's goroutine), and - in the -race build - compiled-code goroutines exiting while unrelated ones start (identity reuse finds the stale record)")
 	limit := 60 * time.Second
@@ -1028,6 +1148,9 @@ func main() {
 	wd.Beat("partD")
 	partD(rep)
 	lap("partD")
+	wd.Beat("partE")
+	partE(rep)
+	lap("partE")
 	rep.Extra["phase_seconds"] = phase
 	rep.Write()
 }
